@@ -12,7 +12,15 @@
 //!  G3 pruning – channel_failed_permanent / node_failed_permanent / stale-removal at chosen times
 //!     are applied in both the library and the reference;
 //!  G4 serialization – write/read of every final graph gives an equal graph (library `==`) and
-//!     equal projection.
+//!     equal projection;
+//!  G5 asynchronous funding lookups (see `async_lookup_case`);
+//!  G6 rapid-gossip-sync snapshots applied on top: the G1 sequences contain snapshots in both format
+//!     versions, encoded by this file's own writer (partial channel announcements for known and new
+//!     channels, with and without a capacity; full and incremental updates with every field-presence
+//!     mask; node reminders, address and feature changes; forwards-compatibility data), with a
+//!     `latest_seen` chosen so that the backdated timestamp lands below, on and above timestamps the
+//!     graph already holds; the reference applies the same snapshot (strictly-newer rule, capacity
+//!     rule, stale pruning at the supplied time) and the projections are compared right afterwards.
 use bins::{sk, NullLogger};
 use bitcoin::constants::ChainHash;
 use bitcoin::hashes::{sha256d, Hash};
@@ -55,10 +63,19 @@ struct RChan {
 	cap: Option<u64>,
 	dirs: [Option<Dir>; 2],
 	recv_time: u64,
+	feat: Vec<u8>,
+}
+#[derive(Clone, Debug, PartialEq)]
+struct RAnn {
+	ts: u32,
+	rgb: [u8; 3],
+	alias: [u8; 32],
+	feat: Vec<u8>,
+	addrs: Vec<String>,
 }
 #[derive(Clone, Debug, PartialEq)]
 struct RNode {
-	ann: Option<(u32, [u8; 3], [u8; 32])>,
+	ann: Option<RAnn>,
 }
 /// The reference graph.
 #[derive(Clone, Default)]
@@ -84,10 +101,10 @@ impl RefGraph {
 	fn projection(&self) -> String {
 		let mut s = String::new();
 		for (scid, c) in self.chans.iter() {
-			s += &format!("C{} {:?} {:?} cap={:?} d0={:?} d1={:?}\n", scid, c.n1, c.n2, c.cap, c.dirs[0], c.dirs[1]);
+			s += &format!("C{} {:?} {:?} cap={:?} feat={} d0={:?} d1={:?}\n", scid, c.n1, c.n2, c.cap, vcore::hex(&c.feat), c.dirs[0], c.dirs[1]);
 		}
 		for (id, n) in self.nodes.iter() {
-			s += &format!("N{:?} chans={:?} ann={:?}\n", id, self.node_chans(id), n.ann.map(|a| (a.0, a.1, vcore::hex(&a.2[..4]))));
+			s += &format!("N{:?} chans={:?} ann={:?}\n", id, self.node_chans(id), n.ann.as_ref().map(|a| (a.ts, a.rgb, vcore::hex(&a.alias[..4]), vcore::hex(&a.feat), a.addrs.clone())));
 		}
 		s
 	}
@@ -97,13 +114,13 @@ fn project(g: &NetworkGraph<NullLogger>) -> String {
 	let mut chans: BTreeMap<u64, String> = BTreeMap::new();
 	for (scid, c) in ro.channels().unordered_iter() {
 		let d = |u: &Option<lightning::routing::gossip::ChannelUpdateInfo>| u.as_ref().map(|u| Dir { ts: u.last_update, enabled: u.enabled, cltv: u.cltv_expiry_delta, min: u.htlc_minimum_msat, max: u.htlc_maximum_msat, base: u.fees.base_msat, prop: u.fees.proportional_millionths });
-		chans.insert(*scid, format!("C{} {:?} {:?} cap={:?} d0={:?} d1={:?}\n", scid, c.node_one, c.node_two, c.capacity_sats, d(&c.one_to_two), d(&c.two_to_one)));
+		chans.insert(*scid, format!("C{} {:?} {:?} cap={:?} feat={} d0={:?} d1={:?}\n", scid, c.node_one, c.node_two, c.capacity_sats, vcore::hex(&c.features.encode()), d(&c.one_to_two), d(&c.two_to_one)));
 	}
 	let mut nodes: BTreeMap<NodeId, String> = BTreeMap::new();
 	for (id, n) in ro.nodes().unordered_iter() {
 		let mut ch = n.channels.clone();
 		ch.sort();
-		let ann = n.announcement_info.as_ref().map(|a| (a.last_update(), a.rgb(), vcore::hex(&a.alias().0[..4])));
+		let ann = n.announcement_info.as_ref().map(|a| (a.last_update(), a.rgb(), vcore::hex(&a.alias().0[..4]), vcore::hex(&a.features().encode()), a.addresses().iter().map(|x| format!("{:?}", x)).collect::<Vec<String>>()));
 		nodes.insert(*id, format!("N{:?} chans={:?} ann={:?}\n", id, ch, ann));
 	}
 	chans.values().cloned().collect::<String>() + &nodes.values().cloned().collect::<String>()
@@ -117,6 +134,164 @@ enum Op {
 	FailChan { scid: u64 },
 	FailNode { n: usize },
 	Prune { t: u64 },
+	Rgs(RgsSnap),
+}
+
+/// A rapid-gossip-sync snapshot as this check generates it (its own description; `encode` is the check's own
+/// writer of the documented format, `deliver` holds the reference semantics).
+#[derive(Clone, Debug)]
+struct RgsSnap {
+	v2: bool,
+	latest: u32,
+	default_feats: Vec<Vec<u8>>,
+	nodes: Vec<RgsNode>,
+	anns: Vec<RgsAnn>,
+	defaults: (u16, u64, u32, u32, u64),
+	upds: Vec<RgsUpd>,
+	time: u64,
+}
+#[derive(Clone, Debug)]
+struct RgsNode {
+	n: usize,
+	reminder: bool,
+	/// replacement address list: (encoded address, its Debug form when the library knows the type)
+	addrs: Option<Vec<(Vec<u8>, Option<String>)>>,
+	/// 0 = unchanged, 1..=6 = index+1 into the defaults, 7 = inline
+	feat: u8,
+	inline_feat: Vec<u8>,
+	extra: Option<usize>,
+}
+#[derive(Clone, Debug)]
+struct RgsAnn {
+	scid: u64,
+	feat: Vec<u8>,
+	funding: Option<u64>,
+	extra: usize,
+}
+#[derive(Clone, Debug)]
+struct RgsUpd {
+	scid: u64,
+	dir: u8,
+	disabled: bool,
+	incremental: bool,
+	cltv: Option<u16>,
+	min: Option<u64>,
+	base: Option<u32>,
+	prop: Option<u32>,
+	max: Option<u64>,
+	/// v2 only: followed by a forwards-compatibility entry (same channel, same direction) of this many bytes
+	then_extra: Option<usize>,
+}
+fn bigsize(v: u64) -> Vec<u8> {
+	lightning::util::ser::BigSize(v).encode()
+}
+fn feat_wire(le: &[u8]) -> Vec<u8> {
+	// features on the wire: u16 length, then the flag bytes most significant first
+	let mut out = (le.len() as u16).to_be_bytes().to_vec();
+	out.extend(le.iter().rev());
+	out
+}
+impl RgsSnap {
+	fn encode(&self, u: &Universe, ends: &HashMap<u64, (usize, usize)>) -> Vec<u8> {
+		let mut o: Vec<u8> = vec![76, 68, 75, if self.v2 { 2 } else { 1 }];
+		o.extend_from_slice(u.chain(false).as_bytes());
+		o.extend_from_slice(&self.latest.to_be_bytes());
+		if self.v2 {
+			o.push(self.default_feats.len() as u8);
+			for f in self.default_feats.iter() {
+				o.extend(feat_wire(f));
+			}
+		}
+		o.extend_from_slice(&(self.nodes.len() as u32).to_be_bytes());
+		for nd in self.nodes.iter() {
+			let mut pk = u.npk(nd.n).serialize();
+			if self.v2 {
+				if nd.addrs.is_some() {
+					pk[0] |= 1 << 2;
+				}
+				pk[0] |= (nd.feat & 7) << 3;
+				if nd.reminder {
+					pk[0] |= 1 << 6;
+				}
+				if nd.extra.is_some() {
+					pk[0] |= 1 << 7;
+				}
+			}
+			o.extend_from_slice(&pk);
+			if self.v2 {
+				if let Some(addrs) = nd.addrs.as_ref() {
+					o.push(addrs.len() as u8);
+					for (raw, _) in addrs.iter() {
+						o.push(raw.len() as u8);
+						o.extend_from_slice(raw);
+					}
+				}
+				if nd.feat == 7 {
+					o.extend(feat_wire(&nd.inline_feat));
+				}
+				if let Some(n) = nd.extra {
+					o.extend_from_slice(&(n as u16).to_be_bytes());
+					o.extend(std::iter::repeat(0xa5u8).take(n));
+				}
+			}
+		}
+		let idx = |n: usize| self.nodes.iter().position(|x| x.n == n).expect("endpoint listed") as u64;
+		o.extend_from_slice(&(self.anns.len() as u32).to_be_bytes());
+		let mut prev = 0u64;
+		for a in self.anns.iter() {
+			o.extend(feat_wire(&a.feat));
+			o.extend(bigsize(a.scid - prev));
+			prev = a.scid;
+			let (x, y) = ends[&a.scid];
+			let (lo, hi) = u.ordered(x, y);
+			o.extend(bigsize(idx(lo)));
+			let with_data = self.v2 && (a.funding.is_some());
+			o.extend(bigsize(idx(hi) | if with_data { 1 << 63 } else { 0 }));
+			if with_data {
+				let mut data = bigsize(a.funding.unwrap());
+				data.extend(std::iter::repeat(0x5au8).take(a.extra));
+				o.extend_from_slice(&(data.len() as u16).to_be_bytes());
+				o.extend(data);
+			}
+		}
+		o.extend_from_slice(&(self.upds.len() as u32 + self.upds.iter().filter(|x| self.v2 && x.then_extra.is_some()).count() as u32).to_be_bytes());
+		if !self.upds.is_empty() {
+			o.extend_from_slice(&self.defaults.0.to_be_bytes());
+			o.extend_from_slice(&self.defaults.1.to_be_bytes());
+			o.extend_from_slice(&self.defaults.2.to_be_bytes());
+			o.extend_from_slice(&self.defaults.3.to_be_bytes());
+			o.extend_from_slice(&self.defaults.4.to_be_bytes());
+		}
+		let mut prev = 0u64;
+		for x in self.upds.iter() {
+			o.extend(bigsize(x.scid - prev));
+			prev = x.scid;
+			let flags = x.dir | if x.disabled { 2 } else { 0 } | if x.incremental { 0x80 } else { 0 } | if x.cltv.is_some() { 0x40 } else { 0 } | if x.min.is_some() { 0x20 } else { 0 } | if x.base.is_some() { 0x10 } else { 0 } | if x.prop.is_some() { 0x08 } else { 0 } | if x.max.is_some() { 0x04 } else { 0 };
+			o.push(flags);
+			if let Some(v) = x.cltv {
+				o.extend_from_slice(&v.to_be_bytes());
+			}
+			if let Some(v) = x.min {
+				o.extend_from_slice(&v.to_be_bytes());
+			}
+			if let Some(v) = x.base {
+				o.extend_from_slice(&v.to_be_bytes());
+			}
+			if let Some(v) = x.prop {
+				o.extend_from_slice(&v.to_be_bytes());
+			}
+			if let Some(v) = x.max {
+				o.extend_from_slice(&v.to_be_bytes());
+			}
+			if let (true, Some(n)) = (self.v2, x.then_extra) {
+				o.extend(bigsize(0));
+				o.push(x.dir | 0x7c); // whatever the other bits say, this entry is data to skip
+				o.extend_from_slice(&(n as u16).to_be_bytes());
+				o.extend(std::iter::repeat(0xc3u8).take(n));
+			}
+		}
+		o
+	}
 }
 
 struct Universe {
@@ -221,7 +396,7 @@ fn deliver(u: &Universe, chan_ends: &HashMap<u64, (usize, usize)>, ops: &[Op], r
 							let _ = existing;
 							// new, or re-validated against the chain: the entry is replaced and starts afresh
 							r.drop_chan(*scid);
-							r.chans.insert(*scid, RChan { n1: u.nid(lo), n2: u.nid(hi), cap: if *lookup { u.caps.get(scid).cloned() } else { None }, dirs: [None, None], recv_time: u.now });
+							r.chans.insert(*scid, RChan { n1: u.nid(lo), n2: u.nid(hi), cap: if *lookup { u.caps.get(scid).cloned() } else { None }, dirs: [None, None], recv_time: u.now, feat: ChannelFeatures::empty().encode() });
 							for n in [u.nid(lo), u.nid(hi)] {
 								r.nodes.entry(n).or_insert(RNode { ann: None });
 							}
@@ -265,8 +440,8 @@ fn deliver(u: &Universe, chan_ends: &HashMap<u64, (usize, usize)>, ops: &[Op], r
 					match r.nodes.get_mut(&u.nid(*n)) {
 						None => false,
 						Some(node) => {
-							if node.ann.map(|a| *ts > a.0).unwrap_or(true) {
-								node.ann = Some((*ts, *rgb, *alias));
+							if node.ann.as_ref().map(|a| *ts > a.ts).unwrap_or(true) {
+								node.ann = Some(RAnn { ts: *ts, rgb: *rgb, alias: *alias, feat: NodeFeatures::empty().encode(), addrs: vec![] });
 								true
 							} else {
 								false
@@ -316,6 +491,149 @@ fn deliver(u: &Universe, chan_ends: &HashMap<u64, (usize, usize)>, ops: &[Op], r
 				// removal tracking is forgotten after a week
 				r.removed_chans.retain(|_, at| t.saturating_sub(*at) < 60 * 60 * 24 * 7);
 				r.removed_nodes.retain(|_, at| t.saturating_sub(*at) < 60 * 60 * 24 * 7);
+				(true, None)
+			},
+			Op::Rgs(snap) => {
+				let bytes = snap.encode(u, chan_ends);
+				let sync = lightning_rapid_gossip_sync::RapidGossipSync::new(&g, NullLogger);
+				let res = vcore::guarded(|| sync.update_network_graph_no_std(&bytes, Some(snap.time)).map_err(|e| format!("{:?}", e)));
+				rep.count("g6_rgs_snapshots_applied");
+				rep.count(if snap.v2 { "g6_rgs_snapshots_v2" } else { "g6_rgs_snapshots_v1" });
+				match res {
+					Ok(Ok(ts)) if ts == snap.latest => {},
+					other => bad.push(format!("RGS: op {}: a well-formed snapshot was not applied: {:?}", i, other)),
+				}
+				// ---- reference semantics ----
+				let back = snap.latest.saturating_sub(7 * 24 * 3600);
+				// node details are read against the graph as it was before the snapshot
+				let mut node_mods: Vec<(NodeId, RAnn)> = vec![];
+				if snap.v2 {
+					for nd in snap.nodes.iter() {
+						if !(nd.reminder || nd.addrs.is_some() || nd.feat > 0) {
+							continue;
+						}
+						let id = u.nid(nd.n);
+						let mut ann = RAnn { ts: back, rgb: [0; 3], alias: [0; 32], feat: NodeFeatures::empty().encode(), addrs: vec![] };
+						if let Some(old) = r.nodes.get(&id).and_then(|x| x.ann.as_ref()) {
+							ann = RAnn { ts: back, ..old.clone() };
+						}
+						if let Some(addrs) = nd.addrs.as_ref() {
+							ann.addrs = addrs.iter().filter_map(|(_, known)| known.clone()).collect();
+							rep.add("g6_rgs_node_addresses", addrs.len() as u64);
+							rep.add("g6_rgs_node_addresses_of_unknown_type_skipped", addrs.iter().filter(|a| a.1.is_none()).count() as u64);
+						}
+						if nd.feat == 7 {
+							ann.feat = feat_wire(&nd.inline_feat);
+						} else if nd.feat > 0 {
+							ann.feat = feat_wire(&snap.default_feats[nd.feat as usize - 1]);
+						}
+						node_mods.push((id, ann));
+					}
+				}
+				for a in snap.anns.iter() {
+					let (x, y) = chan_ends[&a.scid];
+					let (lo, hi) = u.ordered(x, y);
+					if r.chans.contains_key(&a.scid) {
+						rep.count("g6_rgs_announcements_of_known_channels");
+						continue;
+					}
+					rep.count("g6_rgs_announcements_of_new_channels");
+					r.chans.insert(a.scid, RChan { n1: u.nid(lo), n2: u.nid(hi), cap: if snap.v2 { a.funding } else { None }, dirs: [None, None], recv_time: back as u64, feat: feat_wire(&a.feat) });
+					for n in [u.nid(lo), u.nid(hi)] {
+						r.nodes.entry(n).or_insert(RNode { ann: None });
+					}
+				}
+				for (id, ann) in node_mods {
+					if let Some(node) = r.nodes.get_mut(&id) {
+						if node.ann.as_ref().map(|a| ann.ts > a.ts).unwrap_or(true) {
+							node.ann = Some(ann);
+							rep.count("g6_rgs_node_details_applied");
+						} else {
+							rep.count("g6_rgs_node_details_not_newer");
+						}
+					}
+				}
+				for x in snap.upds.iter() {
+					let c = match r.chans.get_mut(&x.scid) {
+						Some(c) => c,
+						None => {
+							rep.count("g6_rgs_updates_for_unknown_channels");
+							continue;
+						},
+					};
+					let old = c.dirs[x.dir as usize].clone();
+					let mut d = Dir { ts: back, enabled: !x.disabled, cltv: snap.defaults.0, min: snap.defaults.1, base: snap.defaults.2, prop: snap.defaults.3, max: snap.defaults.4 };
+					if x.incremental {
+						match old.as_ref() {
+							Some(o) => d = Dir { ts: back, enabled: !x.disabled, ..o.clone() },
+							None => {
+								rep.count("g6_rgs_incremental_updates_without_a_base");
+								continue;
+							},
+						}
+					}
+					if let Some(v) = x.cltv {
+						d.cltv = v;
+					}
+					if let Some(v) = x.min {
+						d.min = v;
+					}
+					if let Some(v) = x.base {
+						d.base = v;
+					}
+					if let Some(v) = x.prop {
+						d.prop = v;
+					}
+					if let Some(v) = x.max {
+						d.max = v;
+					}
+					let newer = old.as_ref().map(|o| d.ts > o.ts).unwrap_or(true);
+					let cap_ok = c.cap.map(|s| d.max <= s * 1000).unwrap_or(true);
+					if old.as_ref().map(|o| d.ts == o.ts).unwrap_or(false) {
+						rep.count("g6_rgs_updates_with_an_equal_timestamp");
+					}
+					if newer && cap_ok {
+						c.dirs[x.dir as usize] = Some(d);
+						rep.count(if x.incremental { "g6_rgs_incremental_updates_applied" } else { "g6_rgs_full_updates_applied" });
+					} else if !newer {
+						rep.count("g6_rgs_updates_not_newer");
+					} else {
+						rep.count("g6_rgs_updates_above_capacity");
+					}
+				}
+				// the snapshot ends with stale pruning at the supplied time (a snapshot without an update section is
+				// done before that, and does not move the graph's sync timestamp either)
+				let t = snap.time;
+				let min_time = (t - STALE) as u32;
+				let scids: Vec<u64> = if snap.upds.is_empty() { vec![] } else { r.chans.keys().cloned().collect() };
+				if snap.upds.is_empty() {
+					rep.count("g6_rgs_snapshots_without_updates");
+				}
+				for s in scids {
+					let c = r.chans.get_mut(&s).unwrap();
+					for d in 0..2 {
+						if c.dirs[d].as_ref().map(|x| x.ts < min_time).unwrap_or(false) {
+							c.dirs[d] = None;
+						}
+					}
+					if (c.dirs[0].is_none() || c.dirs[1].is_none()) && c.recv_time < min_time as u64 {
+						r.drop_chan(s);
+						r.removed_chans.insert(s, t);
+						rep.count("g6_rgs_channels_pruned_at_the_end_of_a_snapshot");
+					}
+				}
+				if !snap.upds.is_empty() {
+					r.removed_chans.retain(|_, at| t.saturating_sub(*at) < 60 * 60 * 24 * 7);
+					r.removed_nodes.retain(|_, at| t.saturating_sub(*at) < 60 * 60 * 24 * 7);
+				}
+				if !snap.upds.is_empty() && g.get_last_rapid_gossip_sync_timestamp() != Some(snap.latest) {
+					bad.push(format!("RGS: op {}: last rapid gossip sync timestamp is {:?} after a snapshot seen at {}", i, g.get_last_rapid_gossip_sync_timestamp(), snap.latest));
+				}
+				let (pg, pr) = (project(&g), r.projection());
+				rep.count("g6_rgs_graph_comparisons");
+				if pg != pr && bad.is_empty() {
+					bad.push(format!("RGS: op {}: graph after the snapshot differs from the reference\nlibrary:\n{}\nreference:\n{}", i, pg, pr));
+				}
 				(true, None)
 			},
 		};
@@ -475,7 +793,42 @@ fn one_set(args: &Args, si: u64, rng: &mut Rng, rep: &mut Report, orders: u64) {
 	for _ in 0..(20 + rng.below(60)) {
 		let scid = *rng.pick(&scids);
 		let (a, b) = ends[&scid];
-		match rng.below(20) {
+		match rng.below(22) {
+			20..=21 => {
+				let snap = gen_rgs(&u, &ends, &scids, &mut dir_ts, ts0, rng);
+				// often followed by a later snapshot that changes the same directions incrementally
+				let follow = if !snap.upds.is_empty() && rng.chance(1, 2) {
+					let mut f = snap.clone();
+					f.latest += 1 + rng.below(3000) as u32;
+					f.anns.clear();
+					for nd in f.nodes.iter_mut() {
+						nd.reminder = false;
+						nd.addrs = None;
+						nd.feat = 0;
+					}
+					for x in f.upds.iter_mut() {
+						x.incremental = !rng.chance(1, 5);
+						x.cltv = if rng.chance(1, 3) { Some(6 + rng.below(200) as u16) } else { None };
+						x.base = if rng.chance(1, 3) { Some(rng.below(5000) as u32) } else { None };
+						x.prop = if rng.chance(1, 3) { Some(rng.below(10000) as u32) } else { None };
+						x.min = if rng.chance(1, 3) { Some(rng.below(2000)) } else { None };
+						x.max = None;
+						x.disabled = rng.chance(1, 4);
+						dir_ts.entry((x.scid, x.dir)).or_default().push(f.latest - 7 * 24 * 3600);
+					}
+					Some(f)
+				} else {
+					None
+				};
+				ops.push(Op::Rgs(snap));
+				if let Some(f) = follow {
+					if rng.chance(1, 2) {
+						let scid = *rng.pick(&scids);
+						ops.push(Op::FailChan { scid });
+					}
+					ops.push(Op::Rgs(f));
+				}
+			},
 			0..=4 => ops.push(Op::Ca { scid, a, b, lookup: rng.chance(1, 2), flaw: if rng.chance(1, 4) { 1 + rng.below(4) as u8 } else { 0 } }),
 			5..=12 => {
 				let dir = rng.below(2) as u8;
@@ -513,7 +866,9 @@ fn one_set(args: &Args, si: u64, rng: &mut Rng, rep: &mut Report, orders: u64) {
 	let (g, r, bad) = deliver(&u, &ends, &ops, rep, true);
 	rep.count("g1_sequences");
 	rep.add("g1_ops", ops.len() as u64);
-	if let Some(b) = bad.first() {
+	if let Some(b) = bad.first().filter(|b| b.starts_with("RGS:")) {
+		viol(rep, "G6-rgs-snapshot", &format!("rapid-gossip-sync snapshot: {}", vcore::canon(&b.splitn(3, ':').last().unwrap_or("").lines().next().unwrap_or("").to_string())), b.chars().take(3000).collect(), &ops);
+	} else if let Some(b) = bad.first() {
 		viol(rep, "G1-accept-reject", &format!("acceptance differs from the reference graph: {}", vcore::canon(&b.split(": library").last().unwrap_or("").to_string())), b.clone(), &ops);
 	}
 	let (pg, pr) = (project(&g), r.projection());
@@ -616,6 +971,82 @@ fn one_set(args: &Args, si: u64, rng: &mut Rng, rep: &mut Report, orders: u64) {
 		}
 		serial_check(&g2, rep, &mut viol, &seq);
 	}
+}
+
+/// A snapshot whose backdated timestamp lands below, on or above timestamps the sequence uses.
+fn gen_rgs(u: &Universe, ends: &HashMap<u64, (usize, usize)>, scids: &[u64], dir_ts: &mut HashMap<(u64, u8), Vec<u32>>, ts0: u32, rng: &mut Rng) -> RgsSnap {
+	let v2 = rng.chance(1, 2);
+	let known: Vec<u32> = dir_ts.values().flatten().cloned().collect();
+	let bt: u32 = if !known.is_empty() && rng.chance(1, 2) { (*rng.pick(&known) + 1).saturating_sub(rng.below(3) as u32) } else if rng.chance(1, 5) { ts0 - 7200 } else { ts0 + rng.below(12 * 3600) as u32 };
+	let pats: [&[u8]; 4] = [&[], &[0x02], &[0x00, 0x80], &[0xaa, 0x0a]];
+	let default_feats: Vec<Vec<u8>> = if v2 { (0..rng.below(4)).map(|_| rng.pick(&pats).to_vec()).collect() } else { vec![] };
+	let mut with_history: Vec<(u64, u8)> = dir_ts.keys().cloned().collect();
+	with_history.sort();
+	let mut pairs: std::collections::BTreeSet<(u64, u8)> = Default::default();
+	for _ in 0..rng.below(7) {
+		if !with_history.is_empty() && rng.chance(1, 2) {
+			pairs.insert(*rng.pick(&with_history)); // a direction that has seen updates: incremental entries have a base
+			continue;
+		}
+		let s = if rng.chance(1, 12) { 5 } else { *rng.pick(scids) };
+		pairs.insert((s, rng.below(2) as u8));
+	}
+	let mut ann_scids: std::collections::BTreeSet<u64> = Default::default();
+	for _ in 0..rng.below(5) {
+		ann_scids.insert(*rng.pick(scids));
+	}
+	for (s, _) in pairs.iter() {
+		if *s != 5 && rng.chance(1, 2) {
+			ann_scids.insert(*s); // the snapshot announces what it updates
+		}
+	}
+	let anns: Vec<RgsAnn> = ann_scids.iter().map(|s| RgsAnn { scid: *s, feat: rng.pick(&pats[..3]).to_vec(), funding: if rng.chance(1, 2) { Some(u.caps.get(s).cloned().unwrap_or(*rng.pick(&[1_000u64, 2_000_000]))) } else { None }, extra: rng.below(4) as usize }).collect();
+	let mut listed: std::collections::BTreeSet<usize> = Default::default();
+	for a in anns.iter() {
+		listed.insert(ends[&a.scid].0);
+		listed.insert(ends[&a.scid].1);
+	}
+	for _ in 0..rng.below(4) {
+		listed.insert(rng.below(u.n as u64) as usize);
+	}
+	let mut order: Vec<usize> = listed.into_iter().collect();
+	rng.shuffle(&mut order);
+	let nodes: Vec<RgsNode> = order.into_iter().map(|n| {
+		let addrs = if v2 && rng.chance(1, 4) {
+			Some((0..rng.below(4)).map(|_| {
+				let a = match rng.below(4) {
+					0 => Some(SocketAddress::TcpIpV4 { addr: rng.bytes(), port: rng.below(65536) as u16 }),
+					1 => Some(SocketAddress::OnionV3 { ed25519_pubkey: rng.bytes(), checksum: rng.below(65536) as u16, version: 3, port: rng.below(65536) as u16 }),
+					2 => Some(SocketAddress::Hostname { hostname: lightning::util::ser::Hostname::try_from(format!("n{}.example.com", rng.below(100))).unwrap(), port: 9735 }),
+					_ => None,
+				};
+				match a {
+					Some(a) => (a.encode(), Some(format!("{:?}", a))),
+					None => (vec![77, rng.below(256) as u8, 2, 3], None),
+				}
+			}).collect())
+		} else {
+			None
+		};
+		let feat = if !v2 || rng.chance(2, 3) { 0 } else if !default_feats.is_empty() && rng.chance(1, 2) { 1 + rng.below(default_feats.len() as u64) as u8 } else { 7 };
+		RgsNode { n, reminder: v2 && rng.chance(1, 5), addrs, feat, inline_feat: rng.pick(&pats).to_vec(), extra: if v2 && rng.chance(1, 8) { Some(rng.below(20) as usize) } else { None } }
+	}).collect();
+	let flip = rng.chance(1, 2);
+	let mut pairs: Vec<(u64, u8)> = pairs.into_iter().collect();
+	pairs.sort_by_key(|(s, d)| (*s, if flip { 1 - *d } else { *d }));
+	let maxes = |s: &u64, rng: &mut Rng| {
+		let cap = u.caps.get(s).cloned().unwrap_or(1_000_000);
+		*rng.pick(&[cap * 1000, cap * 1000, cap * 1000 + 1, cap * 500, 1])
+	};
+	let upds: Vec<RgsUpd> = pairs.iter().map(|(s, d)| {
+		dir_ts.entry((*s, *d)).or_default().push(bt);
+		RgsUpd { scid: *s, dir: *d, disabled: rng.chance(1, 5), incremental: rng.chance(1, 2),
+			cltv: if rng.chance(1, 2) { Some(6 + rng.below(200) as u16) } else { None }, min: if rng.chance(1, 2) { Some(rng.below(2000)) } else { None },
+			base: if rng.chance(1, 2) { Some(rng.below(5000) as u32) } else { None }, prop: if rng.chance(1, 2) { Some(rng.below(10000) as u32) } else { None },
+			max: if rng.chance(1, 2) { Some(maxes(s, rng)) } else { None }, then_extra: if rng.chance(1, 6) { Some(rng.below(40) as usize) } else { None } }
+	}).collect();
+	let defaults = (10 + rng.below(100) as u16, rng.below(1000), rng.below(3000) as u32, rng.below(8000) as u32, *rng.pick(&[1_000_000u64, 999_000, 100_000_000, 16_000_000_000]));
+	RgsSnap { v2, latest: bt + 7 * 24 * 3600, default_feats, nodes, anns, defaults, upds, time: u.now }
 }
 
 fn serial_check(g: &NetworkGraph<NullLogger>, rep: &mut Report, viol: &mut impl FnMut(&mut Report, &str, &str, String, &[Op]), ops: &[Op]) {
